@@ -134,8 +134,8 @@ class CentrallyBin(Factory, Container):
         """Return a plain histogram by converting all sub-aggregator values into Counts"""
         out = CentrallyBin([c for c, v in self.bins], self.quantity, Count(), self.nanflow.copy())
         out.entries = self.entries
-        for i, v in self.bins:
-            out.bins[i] = Count.ed(v.entries)
+        for i, (c, v) in enumerate(self.bins):
+            out.bins[i] = (c, Count.ed(v.entries))
         return out.specialize()
 
     @property
